@@ -71,10 +71,11 @@ def gen_case(rng, m, tier):
         return s, "scrypt/N%d/r%d/p%d%s" % (nl, rr, p, "/$" if dollar else ""), 0.01
     if m in ("yescrypt", "gost_yescrypt"):
         fl = r.choice([b"j", b"j", b"/", b"."])
-        if r.random() < 0.10:
+        if r.random() < 0.14:
             # around the pre-hash condition (N/p >= 0x100 and N/p*r >= 0x20000): both sides of it, with p > 1 too
             nl, rr, p, t = r.choice([(12, 32, 1, 0), (12, 32, 2, 0), (12, 32, 3, 0), (12, 32, 5, 0), (13, 32, 2, 0),
-                                     (11, 32, 1, 0), (14, 8, 2, 0), (14, 8, 1, 0), (12, 32, 2, 1)])
+                                     (11, 32, 1, 0), (14, 8, 2, 0), (14, 8, 1, 0), (12, 32, 2, 1),
+                                     (12, 32, 1, 1), (12, 32, 1, 2), (13, 32, 1, 3), (14, 8, 1, 1)])
             if fl != b"j":
                 t = 0
         else:
